@@ -1,6 +1,6 @@
 From Coq Require Import Extraction ExtrOcamlBasic.
 From Common Require Import Bytes Drv.
-From C27 Require Import Model.
+From C27 Require Import Model Codec.
 Extraction "model.ml" drv_b2n drv_n2b drv_z_of_n drv_n_of_z drv_nat_of_n drv_n_of_nat
   init mkchk mkproof check run first_hdr sequential expected proof_sound retained in_window
-  out_of_capacity spec_answers.
+  out_of_capacity spec_answers stored_value dec_stored mk_record.
